@@ -1820,3 +1820,21 @@ Lemma decl_double_rounding_refuted :
   /\ g_run (one_const true (Some TFloat32) w_decl_round) = Printed [(TFloat32, OF (8388609 # 8388608))]
   /\ y_run (PExpr (EConv TFloat32 w_decl_round)) = g_run (PExpr (EConv TFloat32 w_decl_round)).
 Proof. vm_compute. repeat split. Qed.
+
+(* ------------------------------------------------------------------ *)
+(** * 8. A typed constant that still holds a go/constant value when it is used *)
+
+(** convertConstantValue is the only check a binary expression under a typed declaration gets:
+    an integer outside the int64 range is refused whatever the type of the node (rightly for the
+    signed types, wrongly for uint64, uintptr and the float types) *)
+Lemma typed_use_outside_int64 z t : in_range TInt64 z = false -> const_to_machine t (CInt z) = Err.
+Proof. intros H. unfold const_to_machine. cbn [c_int64val bind]. rewrite H. reflexivity. Qed.
+
+Lemma typed_use_boundary_witness :
+  y_run (one_const true (Some TInt64) (EBin BShl (EInt 1) (EInt 63))) = Rejected
+  /\ g_run (one_const true (Some TInt64) (EBin BShl (EInt 1) (EInt 63))) = Rejected
+  /\ y_run (one_const true (Some TUint64) (EBin BShl (EInt 1) (EInt 63))) = Rejected
+  /\ g_run (one_const true (Some TUint64) (EBin BShl (EInt 1) (EInt 63))) = Printed [(TUint64, OI 9223372036854775808)]
+  /\ y_run (one_const true (Some TInt32) (EBin BShl (EInt 1) (EInt 40))) = Printed [(TInt32, OI 0)]
+  /\ g_run (one_const true (Some TInt32) (EBin BShl (EInt 1) (EInt 40))) = Rejected.
+Proof. vm_compute. repeat split. Qed.
